@@ -182,6 +182,9 @@ type Agent struct {
 	renominationInterval  time.Duration
 	lastRenominationTime  time.Time
 
+	// latestRenominationValue is the highest nomination value issued by RenominateCandidate.
+	latestRenominationValue uint32
+
 	turnClientFactory func(*turn.ClientConfig) (turnClient, error)
 }
 
@@ -2063,6 +2066,8 @@ func (a *Agent) setSelector() {
 
 	s.Start()
 	a.selector = s
+	// A new selector starts a new nomination sequence, as controlledSelector.Start does for lastNomination.
+	a.latestRenominationValue = 0
 }
 
 func (a *Agent) getSelector() pairCandidateSelector {
@@ -2099,7 +2104,12 @@ func (a *Agent) RenominateCandidate(local, remote Candidate) error {
 	}
 
 	// Send nomination with custom attribute
-	return a.sendNominationRequest(pair, a.getNominationValue())
+	nominationValue := a.getNominationValue()
+	if nominationValue > a.latestRenominationValue {
+		a.latestRenominationValue = nominationValue
+	}
+
+	return a.sendNominationRequest(pair, nominationValue)
 }
 
 // sendNominationRequest sends a nomination request with custom nomination value.
